@@ -164,7 +164,7 @@ def local_guards(body, site, join):
         t = body.blocks[d]["term"]
         if t["k"] != "switch" or d == site:
             continue
-        succ = body.succs(d)
+        succ = [s for s in body.succs(d) if body.blocks[s]["term"]["k"] != "unreachable"]
         via = [s for s in set(succ) if s == site or body.can_reach(s, site)]
         if len(via) == len(set(succ)):
             continue                       # site reachable through every edge: not a guard of it
